@@ -111,14 +111,14 @@ def proof_step(pid, module, thorough):
     out = r.stdout
     info["theorems"] = thms
     seen = set()
-    for m in re.finditer(r"'([^']+)' depends on axioms: \[([^\]]*)\]", out):
+    for m in re.finditer(r"'(\S+?)' depends on axioms: \[([^\]]*)\]", out):
         name = m.group(1)
         axs = {a.strip() for a in m.group(2).replace("\n", " ").split(",") if a.strip()}
         seen.add(name)
         extra = axs - ALLOWED_AXIOMS
         if extra:
             info["bad_axioms"][name] = sorted(extra)
-    for m in re.finditer(r"'([^']+)' does not depend on any axioms", out):
+    for m in re.finditer(r"'(\S+?)' does not depend on any axioms", out):
         seen.add(m.group(1))
     missing = [t for t in thms if t not in seen]
     if missing or r.returncode != 0:
